@@ -9,7 +9,8 @@ def _mc(*runs):
 
 
 PROPS = {
-    'C11': {
+    'C11': {'shards': lambda t: 16 if t == 'quick' else 48,
+            
         'gen': s2c.gen_ladder,
         'mc': _mc({'module': 'MC_Ladder', 'cfg': 'MC_Ladder', 'tier': 'both', 'actions': ['Toggle', 'Next', 'Reset']},
                   {'module': 'MC_Ladder', 'cfg': 'MC_Ladder_full', 'tier': 'thorough'}),
@@ -19,7 +20,8 @@ PROPS = {
     'C03': {'mc': _mc({'module': 'MC_Values', 'cfg': 'MC_Values', 'tier': 'quick'}, {'module': 'MC_Values', 'cfg': 'MC_Values_deep', 'tier': 'thorough'}),
             'rule': 'one event per encode+decode of a field value; every generated value is in the statement\'s domain '
                     '(re-decided by TLC: Encodable03); distinct = distinct abstract inputs'},
-    'C01': {'mc': _mc({'module': 'MC_Frames', 'cfg': 'MC_Frames', 'tier': 'both'}),
+    'C01': {'shards': lambda t: 16 if t == 'quick' else 48,
+            'mc': _mc({'module': 'MC_Frames', 'cfg': 'MC_Frames', 'tier': 'both'}),
             'rule': 'one event per frame.marshal+frame.unmarshal of a method frame with specification-valid arguments; '
                     'distinct = distinct (class, argument values, channel)'},
     'C02': {'mc': _mc({'module': 'MC_Props', 'cfg': 'MC_Props', 'tier': 'both'}),
@@ -28,7 +30,8 @@ PROPS = {
                       {'module': 'MC_Content', 'cfg': 'MC_Content_small', 'tier': 'quick', 'actions': ['Publish', 'Transmit', 'Heartbeat']},
                       {'module': 'MC_Content', 'cfg': 'MC_Content', 'tier': 'thorough'}),
             'rule': 'one event per body / heartbeat / protocol-header round trip; distinct = distinct (payload, channel)'},
-    'C04': {'mc': _mc({'module': 'MC_Frames', 'cfg': 'MC_Frames', 'tier': 'both'}),
+    'C04': {'shards': lambda t: 16 if t == 'quick' else 48,
+            'mc': _mc({'module': 'MC_Frames', 'cfg': 'MC_Frames', 'tier': 'both'}),
             'rule': 'one event per encoder call (frame.marshal of all five kinds, Frame.marshal(), Properties.marshal(), '
                     'by_type, encode_table_value); every byte compared with the TLA+ reference encoder'},
     'C14': {'mc': _mc({'module': 'MC_Catalog', 'cfg': 'MC_Catalog', 'tier': 'both'},
@@ -55,15 +58,18 @@ PROPS = {
                     'stream sessions with the size-reading receiver walked by Stream.tla (Mode = peek)',
             'mc': _mc({'module': 'MC_Stream', 'cfg': 'MC_Stream_peek', 'tier': 'both', 'actions': ['Send', 'DoDeliver', 'PeekRead']},
                       {'module': 'MC_Stream', 'cfg': 'MC_Stream_peek3', 'tier': 'thorough'})},
-    'C08': {'mc': _mc({'module': 'MC_DecodeLoops', 'cfg': 'MC_DecodeLoops', 'tier': 'both', 'actions': ['ArrayIter', 'FlagIter']},
+    'C08': {'shards': lambda t: 16 if t == 'quick' else 48,
+            'mc': _mc({'module': 'MC_DecodeLoops', 'cfg': 'MC_DecodeLoops', 'tier': 'both', 'actions': ['ArrayIter', 'FlagIter']},
                       {'module': 'MC_DecodeLoops', 'cfg': 'MC_DecodeLoops_dev1', 'tier': 'both', 'expect_violation': 'Progress'},
                       {'module': 'MC_DecodeLoops', 'cfg': 'MC_DecodeLoops_dev2', 'tier': 'both', 'expect_violation': 'StepBound'}),
             'rule': 'one Unmarshal event per input under the decoder-step budget ImplBound(n)=16n+256 (sys.setprofile); inputs: '
                     'single-byte corruptions, rewritten length fields / flag words, truncated payloads in valid envelopes, '
                     'grammar-directed faults, nesting <= 64, random strings; peak memory measured on every 10th'},
-    'C09': {'mc': _mc({'module': 'MC_DecodeLoops', 'cfg': 'MC_DecodeLoops', 'tier': 'both'}),
+    'C09': {'shards': lambda t: 16 if t == 'quick' else 48,
+            'mc': _mc({'module': 'MC_DecodeLoops', 'cfg': 'MC_DecodeLoops', 'tier': 'both'}),
             'rule': 'same corpus as C08; the clause only looks at the type of the exception that left frame.unmarshal'},
-    'C06': {'rule': 'S2C: every distinct receiver buffer of the exhaustive Stream model decoded by the real code; C2S: stream '
+    'C06': {'shards': lambda t: 16 if t == 'quick' else 48,
+            'rule': 'S2C: every distinct receiver buffer of the exhaustive Stream model decoded by the real code; C2S: stream '
                     'sessions (Send / Deliver k / TryDecode) walked by the Stream state machine inside the trace spec; complete '
                     'frames followed by 14 kinds of tail; fuzz inputs for the envelope clause',
             'mc': _mc({'module': 'MC_Stream', 'cfg': 'MC_Stream', 'tier': 'both', 'actions': ['Send', 'DoDeliver', 'TryDecode']},
@@ -72,7 +78,8 @@ PROPS = {
     'C10': {'mc': _mc({'module': 'MC_Values', 'cfg': 'MC_Values', 'tier': 'quick'}, {'module': 'MC_Values', 'cfg': 'MC_Values_deep', 'tier': 'thorough'}),
             'rule': 'EncodeValue / EncodeArg / RoundTrip events with out-of-range, wrong-typed and boundary values at every '
                     'encoder entry point; non-trivial = every event; the clause only applies when the encoder did not raise'},
-    'C12': {'mc': _mc({'module': 'MC_Order', 'cfg': 'MC_Order', 'tier': 'both', 'actions': ['AddEntry']}),
+    'C12': {'shards': lambda t: 16 if t == 'quick' else 48,
+            'mc': _mc({'module': 'MC_Order', 'cfg': 'MC_Order', 'tier': 'both', 'actions': ['AddEntry']}),
             'gen': s2c.gen_order,
             'rule': 'every value encoded twice with deep snapshots before/after (order included); equal-content tables in '
                     'different insertion orders (SameBytes); all frame kinds'},
